@@ -311,6 +311,8 @@ func scenarioC19(x *runner.X) {
 		}
 		return out
 	}
+	lateAdd := n == 2 && t.Bool(0.4)
+	x.Note("last_epoch_hot_loaded", lateAdd)
 	x.Sim(runner.SimOpts{Phase: "streaming", Cfg: dsim.Config{MaxSteps: 50000000, MaxSimTime: 10 * time.Hour, NoTimerRace: true}}, func() {
 		s := dsim.Active()
 		servers := map[string]*MultiEpoch{}
@@ -326,7 +328,19 @@ func scenarioC19(x *runner.X) {
 			}
 			multi := NewMultiEpoch(&Options{EpochSearchConcurrency: 2})
 			srvLoad := newServerLoader()
-			for _, c := range cfgs {
+			for ci, c := range cfgs {
+				if lateAdd && ci == len(cfgs)-1 && ci > 0 {
+					// the last epoch is hot-loaded after the server has already streamed a range that
+					// reaches into it: what those streams remembered must not outlive the load
+					lo, hi := allBlocks[0].Slot, allBlocks[len(allBlocks)-1].Slot
+					if hi-lo > 90 {
+						lo = hi - 90
+					}
+					ctx, cancel := simctx.WithCancel(context.Background())
+					multi.StreamBlocks(&old_faithful_grpc.StreamBlocksRequest{StartSlot: lo, EndSlot: &hi}, &blockStream{fakeStream: fakeStream{ctx: ctx}})
+					multi.StreamTransactions(&old_faithful_grpc.StreamTransactionsRequest{StartSlot: lo, EndSlot: &hi}, &txStream{fakeStream: fakeStream{ctx: ctx}})
+					cancel()
+				}
 				ep, err := srvLoad(c)
 				if err != nil {
 					s.Fail("oracle", "a freshly indexed epoch cannot be loaded", err.Error())
